@@ -1,6 +1,7 @@
 #include <chrono>
 #include "isolate.h"
 
+#include <poll.h>
 #include <signal.h>
 #include <sys/wait.h>
 #include <unistd.h>
@@ -26,14 +27,61 @@ size_t countOps(const Plan& p)
     return n;
 }
 
-static std::string readAll(int fd)
+// Reads both pipes of a child until it closes them. The child arms its own watchdog (alarm); this is the second line:
+// if the pipes are still open graceSec after that watchdog should have fired, the child is killed from here (a child
+// that spins with the alarm lost, or a grandchild that inherited the pipes, would otherwise block its parent forever).
+static bool readBothOrKill(int fdA, std::string& a, int fdB, std::string& b, pid_t pid, int timeoutSec, int graceSec = 10)
 {
-    std::string s;
+    const auto deadline = std::chrono::steady_clock::now() + std::chrono::seconds(timeoutSec + graceSec);
+    bool openA = true, openB = true, killed = false;
     char buf[4096];
-    ssize_t k;
-    while ((k = read(fd, buf, sizeof buf)) > 0)
-        s.append(buf, static_cast<size_t>(k));
-    return s;
+    while (openA || openB)
+    {
+        struct pollfd pf[2];
+        int n = 0;
+        if (openA)
+        {
+            pf[n].fd = fdA;
+            pf[n].events = POLLIN;
+            pf[n].revents = 0;
+            ++n;
+        }
+        if (openB)
+        {
+            pf[n].fd = fdB;
+            pf[n].events = POLLIN;
+            pf[n].revents = 0;
+            ++n;
+        }
+        const auto now = std::chrono::steady_clock::now();
+        if (now >= deadline)
+        {
+            if (!killed)
+            {
+                kill(pid, SIGKILL);
+                killed = true;
+            }
+            // a grandchild may still hold the pipes open: do not wait for it
+            break;
+        }
+        const int waitMs = static_cast<int>(std::min<long long>(1000, std::chrono::duration_cast<std::chrono::milliseconds>(deadline - now).count() + 1));
+        const int r = poll(pf, static_cast<nfds_t>(n), waitMs);
+        if (r <= 0)
+            continue;
+        for (int i = 0; i < n; ++i)
+        {
+            if (!(pf[i].revents & (POLLIN | POLLHUP | POLLERR)))
+                continue;
+            const ssize_t k = read(pf[i].fd, buf, sizeof buf);
+            std::string& dst = pf[i].fd == fdA ? a : b;
+            bool& open = pf[i].fd == fdA ? openA : openB;
+            if (k > 0)
+                dst.append(buf, static_cast<size_t>(k));
+            else
+                open = false;
+        }
+    }
+    return killed;
 }
 
 // crash signature from a sanitizer report: "<type>@<file>:<function>" of the first library frame
@@ -148,12 +196,14 @@ Outcome runIsolated(const Plan& plan, int timeoutSec)
     close(resPipe[1]);
     close(errPipe[1]);
     // drain stderr first in a bounded way (reports are small), then the result
-    std::string err = readAll(errPipe[0]);
-    std::string res = readAll(resPipe[0]);
+    std::string err, res;
+    const bool killedByParent = readBothOrKill(errPipe[0], err, resPipe[0], res, pid, timeoutSec);
     close(resPipe[0]);
     close(errPipe[0]);
     int status = 0;
     waitpid(pid, &status, 0);
+    if (killedByParent)
+        status = SIGALRM;  // classified like the child's own watchdog
     if (WIFEXITED(status) && WEXITSTATUS(status) == 0 && !res.empty())
     {
         size_t a = res.find('\t'), b = res.find('\t', a + 1), c = res.find('\t', b + 1);
@@ -243,12 +293,14 @@ RunResult runForkedFull(const Plan& plan, int timeoutSec)
     }
     close(resPipe[1]);
     close(errPipe[1]);
-    std::string res = readAll(resPipe[0]);
-    std::string err = readAll(errPipe[0]);
+    std::string res, err;
+    const bool killedByParent = readBothOrKill(resPipe[0], res, errPipe[0], err, pid, timeoutSec);
     close(resPipe[0]);
     close(errPipe[0]);
     int status = 0;
     waitpid(pid, &status, 0);
+    if (killedByParent)
+        status = SIGALRM;  // classified like the child's own watchdog
     if (WIFEXITED(status) && WEXITSTATUS(status) == 0 && !res.empty())
     {
         std::istringstream is(res);
